@@ -160,6 +160,20 @@ func (c *ctx) limits() {
 			c.addressLaws("limit", fmt.Sprintf("chain/%d", d), p, 0, 2)
 		}
 		b.MaxOf("deepest_chain_verified", int64(d))
+		// what Verify accepts must be able to travel: a satisfied policy reaches every other node in its binary form
+		if d <= 1100 {
+			e := env{lockH, time.Unix(lockTs+1, 0), c.h0}
+			if ok, _, _ := c.realVerify("limit", p, e, nil, nil); ok {
+				var q types.SpendPolicy
+				dec := types.NewBufDecoder(modelEncode(p))
+				q.DecodeFrom(dec)
+				b.Eval(1)
+				b.Count("accepted_policies_decoded_from_their_encoding", 1)
+				if dec.Err() != nil {
+					b.Violate("C14/limit/verify-accepts-a-policy-that-does-not-decode-from-its-own-encoding", fmt.Sprintf("a chain of %d nested thresholds is accepted by Verify, but DecodeFrom refuses its encoding: %v", d, dec.Err()), map[string]any{"depth": d})
+				}
+			}
+		}
 	}
 
 	// --- decode depth
